@@ -108,6 +108,7 @@ func c11b(c *Ctx, a *absVariant) {
 		}
 	}
 	r.Check(strings.Join(callers, ",") == "addErrAt", "C11-b", "T.errList.add:callers", vn, "builder/static_code.go", "addErrAt only", "called from ["+strings.Join(callers, ",")+"]")
+	errListKeepsAll(c, v, "C11-b")
 	fd := v.Func("parser", "addErrAt")
 	if fd == nil {
 		r.Fatal("variant %s: addErrAt missing", vn)
@@ -713,4 +714,28 @@ func flattenTextTokens(toks []string) string {
 		out = append(out, tk)
 	}
 	return strings.Join(out, " ")
+}
+
+
+// errListKeepsAll: errList.add keeps every error it is given: on its only path the list becomes append(list, err).
+// (Which errors are reported may not depend on how many were recorded before: duplicates are removed later, by dedupe,
+// so a cap or filter here makes the reported set depend on re-evaluations, i.e. on Memoize.)
+func errListKeepsAll(c *Ctx, v *variants.Variant, rule string) {
+	r := c.R
+	vn := v.Name
+	af := v.Func("errList", "add")
+	if af == nil || af.Body == nil {
+		r.Fatal("variant %s: errList.add missing", vn)
+		return
+	}
+	rv, ep := recvName(af), firstParam(af)
+	paths := c.vnorm(v).normPaths(af)
+	okAdd := len(paths) == 1
+	why := fmt.Sprintf("%d paths", len(paths))
+	if okAdd {
+		p := paths[0]
+		okAdd = len(p.facts()) == 0 && p.countSets("*"+rv+"=append(*"+rv+","+ep+")") == 1
+		why = "the path is " + abbreviate(p.String())
+	}
+	r.Check(okAdd, rule, "T.errList.add:appends-unconditionally", vn, v.Where(af.Pos()), "*e = append(*e, err) on the only path", why+": an error handed to the list is dropped or altered")
 }
